@@ -4,6 +4,8 @@ import (
 	"context"
 	"encoding/json"
 	"fmt"
+	"google.golang.org/protobuf/types/known/durationpb"
+	"google.golang.org/protobuf/types/known/fieldmaskpb"
 	"math/rand"
 	"net"
 	"os"
@@ -213,6 +215,72 @@ func TestC16(t *testing.T) {
 		byCode[code.String()]++
 		col.Case(evd.FP(rq.Sig()), rq.Field != "")
 	}
+	// push subscriptions whose retry policy / endpoint sit on boundary values: the
+	// pusher the supervisor starts for them runs outside any request (and outside
+	// the recovery interceptors), so the process is watched for a moment afterwards
+	if cfg.Mine(7) {
+		dur := func(d time.Duration) *durationpb.Duration { return durationpb.New(d) }
+		ep := "http://127.0.0.1:1/push"
+		type pushCase struct {
+			name   string
+			create *pubsubpb.Subscription
+			update *pubsubpb.UpdateSubscriptionRequest
+		}
+		mk := func(name string, rp *pubsubpb.RetryPolicy) *pubsubpb.Subscription {
+			return &pubsubpb.Subscription{Name: "projects/p/subscriptions/push-" + name, Topic: w.Topic, PushConfig: &pubsubpb.PushConfig{PushEndpoint: ep}, RetryPolicy: rp}
+		}
+		upd := func(name string, rp *pubsubpb.RetryPolicy) *pubsubpb.UpdateSubscriptionRequest {
+			return &pubsubpb.UpdateSubscriptionRequest{Subscription: &pubsubpb.Subscription{Name: "projects/p/subscriptions/push-" + name, RetryPolicy: rp}, UpdateMask: &fieldmaskpb.FieldMask{Paths: []string{"retry_policy"}}}
+		}
+		cases := []pushCase{
+			{"min-1ns", mk("min-1ns", &pubsubpb.RetryPolicy{MinimumBackoff: dur(1)}), nil},
+			{"min-3ns", mk("min-3ns", &pubsubpb.RetryPolicy{MinimumBackoff: dur(3)}), nil},
+			{"min-1us", mk("min-1us", &pubsubpb.RetryPolicy{MinimumBackoff: dur(time.Microsecond)}), nil},
+			{"max-1ns", mk("max-1ns", &pubsubpb.RetryPolicy{MaximumBackoff: dur(1)}), nil},
+			{"update-to-zero", mk("update-to-zero", &pubsubpb.RetryPolicy{MinimumBackoff: dur(time.Second)}), upd("update-to-zero", &pubsubpb.RetryPolicy{MinimumBackoff: dur(0), MaximumBackoff: dur(0)})},
+			{"update-to-negative", mk("update-to-negative", nil), upd("update-to-negative", &pubsubpb.RetryPolicy{MinimumBackoff: dur(-time.Second)})},
+			{"update-to-1ns", mk("update-to-1ns", nil), upd("update-to-1ns", &pubsubpb.RetryPolicy{MinimumBackoff: dur(1)})},
+			{"huge", mk("huge", &pubsubpb.RetryPolicy{MinimumBackoff: dur(1 << 62), MaximumBackoff: dur(1 << 62)}), nil},
+		}
+		for _, pc := range cases {
+			line, _ := json.Marshal(map[string]any{"push": pc.name})
+			reqLog.Write(append(line, '\n'))
+			reqLog.Sync()
+			c, cancel := context.WithTimeout(ctx, 15*time.Second)
+			_, cerr := srv.api.Sub.CreateSubscription(c, pc.create)
+			if cerr == nil {
+				// something to push, so that the pusher really runs
+				srv.api.Pub.Publish(c, &pubsubpb.PublishRequest{Topic: w.Topic, Messages: []*pubsubpb.PubsubMessage{{Data: []byte(`{"p":1}`)}}})
+			}
+			var uerr error
+			if pc.update != nil && cerr == nil {
+				time.Sleep(300 * time.Millisecond)
+				_, uerr = srv.api.Sub.UpdateSubscription(c, pc.update)
+				srv.api.Pub.Publish(c, &pubsubpb.PublishRequest{Topic: w.Topic, Messages: []*pubsubpb.PubsubMessage{{Data: []byte(`{"p":2}`)}}})
+			}
+			cancel()
+			select {
+			case <-srv.exited:
+			case <-time.After(1500 * time.Millisecond):
+			}
+			if !srv.alive() {
+				crashes++
+				col.Violation("crash:push-subscription/"+pc.name, fmt.Sprintf("the server process died after a push subscription was configured with %s (create: %v, update: %v): %s", pc.name, cerr, uerr, srv.panicLine()),
+					map[string]any{"case": pc.name, "server_log_tail": srv.panicLine()})
+				restart()
+			} else if !probe() {
+				col.Violation("wedged:push-subscription/"+pc.name, fmt.Sprintf("after the push subscription %s the server no longer answers", pc.name), nil)
+				restart()
+			} else if cerr == nil {
+				// remove it again: a pusher that spins on an unreachable endpoint only costs time
+				c2, cancel2 := context.WithTimeout(ctx, 5*time.Second)
+				srv.api.Sub.DeleteSubscription(c2, &pubsubpb.DeleteSubscriptionRequest{Subscription: pc.create.Name})
+				cancel2()
+			}
+			answered++
+			col.Case(evd.FP("push", pc.name), true)
+		}
+	}
 	// streaming pull: hostile first messages and mid-stream garbage
 	streams := []struct {
 		name string
@@ -223,6 +291,15 @@ func TestC16(t *testing.T) {
 		{"negative-flow-control", []*pubsubpb.StreamingPullRequest{{Subscription: w.Sub, StreamAckDeadlineSeconds: -1, MaxOutstandingMessages: -5, MaxOutstandingBytes: -5}}},
 		{"huge-flow-control", []*pubsubpb.StreamingPullRequest{{Subscription: w.Sub, StreamAckDeadlineSeconds: 10, MaxOutstandingMessages: 1 << 62, MaxOutstandingBytes: 1 << 62}}},
 		{"mismatched-modify-arrays", []*pubsubpb.StreamingPullRequest{{Subscription: w.Sub, StreamAckDeadlineSeconds: 10}, {ModifyDeadlineAckIds: []string{"a", "b"}, ModifyDeadlineSeconds: []int32{1}}}},
+		// the two parallel arrays in every length relation, with well-formed ids (the
+		// length check has to come before anything indexes one array by the other)
+		{"more-deadlines-than-ids", []*pubsubpb.StreamingPullRequest{{Subscription: w.Sub, StreamAckDeadlineSeconds: 10}, {ModifyDeadlineAckIds: w.ForeignAck[:1], ModifyDeadlineSeconds: []int32{10, 10}}}},
+		{"more-deadlines-than-ids-mixed", []*pubsubpb.StreamingPullRequest{{Subscription: w.Sub, StreamAckDeadlineSeconds: 10}, {ModifyDeadlineAckIds: w.ForeignAck[:1], ModifyDeadlineSeconds: []int32{0, 30, 5}}}},
+		{"deadlines-without-ids", []*pubsubpb.StreamingPullRequest{{Subscription: w.Sub, StreamAckDeadlineSeconds: 10}, {ModifyDeadlineSeconds: []int32{10}}}},
+		{"ids-without-deadlines", []*pubsubpb.StreamingPullRequest{{Subscription: w.Sub, StreamAckDeadlineSeconds: 10}, {ModifyDeadlineAckIds: w.ForeignAck[:1]}}},
+		{"fewer-deadlines-than-ids", []*pubsubpb.StreamingPullRequest{{Subscription: w.Sub, StreamAckDeadlineSeconds: 10}, {ModifyDeadlineAckIds: append(append([]string{}, w.ForeignAck[:1]...), w.StaleAck...), ModifyDeadlineSeconds: []int32{10}}}},
+		{"more-deadlines-than-ids-in-first-message", []*pubsubpb.StreamingPullRequest{{Subscription: w.Sub, StreamAckDeadlineSeconds: 10, ModifyDeadlineAckIds: w.ForeignAck[:1], ModifyDeadlineSeconds: []int32{10, 0}}}},
+		{"per-id-deadlines", []*pubsubpb.StreamingPullRequest{{Subscription: w.Sub, StreamAckDeadlineSeconds: 10}, {ModifyDeadlineAckIds: append(append([]string{}, w.ForeignAck...), w.StaleAck...), ModifyDeadlineSeconds: mixedDeadlines(len(w.ForeignAck) + len(w.StaleAck))}}},
 		{"garbage-ack-ids", []*pubsubpb.StreamingPullRequest{{Subscription: w.Sub, StreamAckDeadlineSeconds: 10}, {AckIds: []string{"zzz", ""}}}},
 		{"garbage-modify-ids", []*pubsubpb.StreamingPullRequest{{Subscription: w.Sub, StreamAckDeadlineSeconds: 10}, {ModifyDeadlineAckIds: []string{"zzz"}, ModifyDeadlineSeconds: []int32{0}}}},
 		{"negative-deadline", []*pubsubpb.StreamingPullRequest{{Subscription: w.Sub, StreamAckDeadlineSeconds: 10}, {ModifyDeadlineAckIds: w.ForeignAck, ModifyDeadlineSeconds: negs(len(w.ForeignAck))}}},
@@ -350,6 +427,14 @@ func TestC16(t *testing.T) {
 		col.Sample(map[string]any{"rpc": reqs[0].RPC, "field": reqs[0].Field, "class": reqs[0].Class})
 		col.Sample(map[string]any{"rpc": reqs[len(reqs)/2].RPC, "field": reqs[len(reqs)/2].Field, "class": reqs[len(reqs)/2].Class})
 	}
+}
+
+func mixedDeadlines(n int) []int32 {
+	out := make([]int32, n)
+	for i := range out {
+		out[i] = []int32{0, 30, 5, 600}[i%4]
+	}
+	return out
 }
 
 func negs(n int) []int32 {
